@@ -108,6 +108,12 @@ class Instance:
         return f'<{self.cls.name} instance {self.attrs}>'
 
 
+class SuperProxy:
+    def __init__(self, self_val, cls):
+        self.self_val = self_val
+        self.cls = cls
+
+
 class ExtRef:
     """reference into an external library (numpy, pandas, ...), resolved by the model table"""
     __slots__ = ('path',)
@@ -425,6 +431,9 @@ class Interp:
                 continue
             self.exec_stmt(s, cframe)
         cls = ClassVal(st, frame.module, qual, bases, cframe.locals)
+        for v in cframe.locals.values():
+            if isinstance(v, FuncVal):
+                v.owner = cls
         is_record = any(isinstance(b, ExtRef) and b.path == 'typing.NamedTuple' for b in bases)
         for dec in st.decorator_list:
             d = dec.func if isinstance(dec, ast.Call) else dec
@@ -784,6 +793,19 @@ class Interp:
             raise AbsRaise(ExcVal('AttributeError', (f'function has no attribute {name}',)), node)
         if isinstance(obj, BoundMethod):
             return self._getattr(obj.func, name, node)
+        if isinstance(obj, SuperProxy):
+            for b in obj.cls.bases:
+                if isinstance(b, ClassVal):
+                    try:
+                        v = b.lookup(name)
+                    except KeyError:
+                        continue
+                    if isinstance(v, FuncVal) and not v.is_static:
+                        return BoundMethod(obj.self_val, v)
+                    return v
+            if name == '__init__':
+                return self.models.noop_callable()
+            raise AbsRaise(ExcVal('AttributeError', (f"'super' object has no attribute '{name}'",)), node)
         return self.models.getattr(self, obj, name, node)
 
     def setattr(self, obj, name, v, node):
@@ -992,6 +1014,14 @@ class Interp:
                 self._comp(gens, i + 1, sub, emit)
 
     def ex_Call(self, node, frame):
+        if isinstance(node.func, ast.Name) and node.func.id == 'super' and not node.args and not node.keywords:
+            f = frame
+            while f is not None and (f.func is None or getattr(f.func, 'owner', None) is None):
+                f = f.closure
+            if f is None:
+                self.fail('super() outside a method', node)
+            params = f.func.node.args.posonlyargs + f.func.node.args.args
+            return SuperProxy(f.locals[params[0].arg], f.func.owner)
         fn = self.eval(node.func, frame)
         args = []
         for a in node.args:
